@@ -83,6 +83,10 @@ std::size_t EventFilter::writeAllowed(const char* buffer, std::size_t bufferSize
         {
           _allowedSourceIds.insert(eventSource.id);
         }
+        else
+        {
+          _allowedSourceIds.erase(eventSource.id); // id might be redefined
+        }
         // else: event source is not allowed, events referencing it
         // will not be written.
       }
